@@ -154,4 +154,51 @@ example :
     let args : List UArg := [⟨[0, 0], [[1], [3]]⟩]
     bcastOK args = true ∧ (args.all argOK) = false ∧ postOK args = some false := by decide
 
+/-! ## the run-time check of `Meta.ewLazy` is redundant
+
+For the elementwise index strings (`tuple(range(ndim))[::-1]`) the hypotheses of `unify_post` follow from what the model
+checks BEFORE calling `unify_chunks`: `broadcast_shapes` accepts the two shapes (`bcastOK_ewArgs`: column by column `bdim`
+admits only equal lengths or length one), the reversed ranges have no repeated symbol, and every output symbol is a key of
+`chunkss`. Only "every axis has at least one chunk" remains as a hypothesis (a dask invariant). -/
+
+theorem ew_check_redundant (ca cb : Chunks) (hca : ∀ x ∈ ca, x ≠ []) (hcb : ∀ x ∈ cb, x ≠ []) (sh : List Nat)
+    (hbs : broadcastShapes [shapeOf ca, shapeOf cb] = some sh) (cs : List (Sym × List Nat)) (news : List Chunks)
+    (hu : unifyChunks (ewArgs ca cb) = some (cs, news)) :
+    (revRange (max ca.length cb.length)).all
+      (fun s => unifyPostAxis ((lookupSym cs s).getD []) (newsOf (ewArgs ca cb) news s)) = true := by
+  apply List.all_eq_true.mpr
+  intro s hs
+  refine unify_post_check (ewArgs ca cb) cs news ?_ (bcastOK_ewArgs ca cb sh hbs) hu s (out_syms ca cb s hs)
+  intro a ha
+  simp only [ewArgs, List.mem_cons, List.not_mem_nil, or_false] at ha
+  rcases ha with rfl | rfl
+  · exact argOK_ew ca hca
+  · exact argOK_ew cb hcb
+
+/-- `ewLazy` without its run-time check -/
+def ewLazyUnchecked (ca cb : Chunks) : Option Chunks := do
+  let _ ← broadcastShapes [shapeOf ca, shapeOf cb]
+  let (cs, _) ← unifyChunks (ewArgs ca cb)
+  optAll ((revRange (max ca.length cb.length)).map (lookupSym cs))
+
+theorem ewLazy_eq_unchecked (ca cb : Chunks) (hca : ∀ x ∈ ca, x ≠ []) (hcb : ∀ x ∈ cb, x ≠ []) :
+    ewLazy ca cb = ewLazyUnchecked ca cb := by
+  unfold ewLazy ewLazyUnchecked
+  cases hbs : broadcastShapes [shapeOf ca, shapeOf cb] with
+  | none => simp
+  | some sh =>
+    cases hu : unifyChunks (ewArgs ca cb) with
+    | none => simp
+    | some r =>
+      obtain ⟨cs, news⟩ := r
+      have hc := ew_check_redundant ca cb hca hcb sh hbs cs news hu
+      cases ho : optAll ((revRange (max ca.length cb.length)).map (lookupSym cs)) with
+      | none => simp [ho]
+      | some res =>
+        simp [ho]
+        exact List.all_eq_true.mp hc
+
+example : ewLazy [[2, 0, 2], [0, 1, 0]] [[1, 3], [3, 2]] = some [[1, 1, 0, 2], [3, 2]] ∧
+    ewLazyUnchecked [[2, 0, 2], [0, 1, 0]] [[1, 3], [3, 2]] = some [[1, 1, 0, 2], [3, 2]] := by decide
+
 end Dask.C25x
